@@ -339,6 +339,38 @@ fn c12_check(serial: u32) -> Result<(), String> {
         soa.serial
     }).and_then(|s| if s == serial.wrapping_add(1) { Ok(()) } else { Err(format!("serial {serial} -> {s}, RFC 1982 successor is {}", serial.wrapping_add(1))) })
 }
+fn c12_rrset_check(seed: u64) -> Result<(), String> {
+    use hickory_proto::rr::rdata::NS;
+    use hickory_proto::rr::{DNSClass, RecordSet};
+    let mut r = Rng(seed | 1);
+    let soa = |s: u32| Record::from_rdata(Name::root(), 60, RData::SOA(SOA::new(Name::root(), Name::root(), s, 1, 1, 1, 1)));
+    let lt = |a: u32, b: u32| (a < b && b - a < 0x8000_0000) || (a > b && a - b > 0x8000_0000);
+    // SOA replacement follows RFC 1982
+    let picks = [0u32, 1, 5, 0x7fff_ffff, 0x8000_0000, 0x8000_0001, u32::MAX - 5, u32::MAX];
+    let (a, b) = (picks[r.below(8) as usize], picks[r.below(8) as usize]);
+    let mut set = RecordSet::new(Name::root(), RecordType::SOA, 0);
+    set.insert(soa(a), 0);
+    let acc = set.insert(soa(b), 0);
+    if set.records_without_rrsigs().count() != 1 { return Err(format!("SOA RRset holds {} records", set.records_without_rrsigs().count())); }
+    if lt(a, b) && !acc { return Err(format!("SOA serial {b} is newer than {a} (RFC 1982) but was ignored")); }
+    if (a == b || lt(b, a)) && acc { return Err(format!("SOA serial {b} is not newer than {a} (RFC 1982) but replaced it")); }
+    // the last NS survives deletes in any class; the SOA survives deletes
+    let nsn = |i: u64| Name::from_ascii(format!("ns{i}.example.")).unwrap();
+    let mut ns = RecordSet::new(Name::root(), RecordType::NS, 0);
+    let k = 1 + r.below(3);
+    for i in 0..k { ns.insert(Record::from_rdata(Name::root(), 60, RData::NS(NS(nsn(i)))), 0); }
+    for i in 0..k {
+        let mut del = Record::from_rdata(Name::root(), 0, RData::NS(NS(nsn(i))));
+        del.dns_class = if r.below(2) == 0 { DNSClass::NONE } else { DNSClass::IN };
+        ns.remove(&del, 1);
+    }
+    if ns.records_without_rrsigs().count() == 0 { return Err(format!("the last NS record was deleted ({k} NS records, deleted one by one)")); }
+    let mut s2 = RecordSet::new(Name::root(), RecordType::SOA, 0);
+    s2.insert(soa(7), 0);
+    let mut del = soa(7); del.dns_class = DNSClass::NONE;
+    if s2.remove(&del, 1) || s2.records_without_rrsigs().count() != 1 { return Err("the SOA was deleted".into()); }
+    Ok(())
+}
 fn c13_check(time: u64, fudge: u16) -> Result<(), String> {
     use hickory_proto::rr::rdata::tsig::TsigAlgorithm;
     use hickory_proto::rr::TSigner;
@@ -372,6 +404,7 @@ fn main() {
             "c02_roundtrip" => c02_check(inp.parse().unwrap()),
             "c04_build" => c04_build_check(inp.parse().unwrap()),
             "c12_serial" => c12_check(inp.parse().unwrap()),
+            "c12_rrset" => c12_rrset_check(inp.parse().unwrap()),
             "c13_tsig" => { let mut p = inp.split(','); c13_check(p.next().unwrap().parse().unwrap(), p.next().unwrap().parse().unwrap()) }
             _ => { eprintln!("unknown oracle"); std::process::exit(2) }
         };
@@ -386,6 +419,7 @@ fn main() {
         "c02_roundtrip" => c02_search(seed),
         "c04_build" => { let mut r = Rng(seed.wrapping_mul(0x9FB21C651E98DF25) | 1); (0..200000).find_map(|_| { let s = r.next(); c04_build_check(s).err().map(|e| (format!("{s}"), e)) }) }
         "c12_serial" => [0u32, 1, 0x7fff_ffff, 0x8000_0000, u32::MAX - 1, u32::MAX].iter().find_map(|&s| c12_check(s).err().map(|e| (s.to_string(), e))),
+        "c12_rrset" => { let mut r = Rng(seed.wrapping_mul(0x94D049BB133111EB) | 1); (0..5000).find_map(|_| { let s = r.next(); c12_rrset_check(s).err().map(|e| (format!("{s}"), e)) }) }
         "c13_tsig" => [(1609459200u64, 300u16), (300, 300), (299, 300), (5, 300), (0, 0), (0, 65535), ((1 << 48) - 1, 65535)].iter()
             .find_map(|&(t, f)| c13_check(t, f).err().map(|e| (format!("{t},{f}"), e))),
         _ => { eprintln!("unknown oracle"); std::process::exit(2) }
